@@ -30,7 +30,8 @@ CONSTANTS Regs, CRegs,   \* register names of the two array types
                          \* behaviours from being dominated by constructor calls)
           MaxLen
 
-VARIABLES val, cval, hist
+VARIABLES val, cval, hist,
+          fin            \* simulation only: set by Finish so that one behaviour is emitted per trace
 vars == <<val, cval>>
 View == vars
 
@@ -98,7 +99,7 @@ Rec(act, d, x, y, sz, p, i, b, reply, v) ==
 IsCompact(r) == r.act \in {"CNew", "CEmpty", "CSet", "CCopy"}
 Expand(h) == [j \in 1..Len(h) |-> [h[j] EXCEPT !.st = IF IsCompact(h[j]) THEN CP(@) ELSE P(@)]]
 
-Init == /\ val = [r \in Regs |-> Nil] /\ cval = [r \in CRegs |-> Nil] /\ hist = <<>>
+Init == /\ val = [r \in Regs |-> Nil] /\ cval = [r \in CRegs |-> Nil] /\ hist = <<>> /\ fin = FALSE
 
 Free == Mode = "free"
 \* pairs mode: step 1 writes register "a", step 2 register "b", step 3 is one operation with receiver "a"
@@ -106,8 +107,8 @@ Free == Mode = "free"
 Slot(d) == Free \/ (Len(hist) = 0 /\ d = "a") \/ (Len(hist) = 1 /\ d = "b")
 OpSlot(d, x) == Free \/ (Len(hist) = 2 /\ d = "c" /\ x = "a")
 
-Put(d, v, rec) == /\ val' = [val EXCEPT ![d] = v] /\ UNCHANGED cval /\ hist' = Append(hist, rec)
-CPut(d, v, rec) == /\ cval' = [cval EXCEPT ![d] = v] /\ UNCHANGED val /\ hist' = Append(hist, rec)
+Put(d, v, rec) == /\ val' = [val EXCEPT ![d] = v] /\ UNCHANGED <<cval, fin>> /\ hist' = Append(hist, rec)
+CPut(d, v, rec) == /\ cval' = [cval EXCEPT ![d] = v] /\ UNCHANGED <<val, fin>> /\ hist' = Append(hist, rec)
 
 New(d, sz, p) == /\ Len(hist) < MaxLen /\ Len(hist) < NewUntil /\ Slot(d)
                  /\ Put(d, NewV(sz, p), Rec("New", d, "", "", sz, p, 0, FALSE, TRUE, NewV(sz, p)))
@@ -153,7 +154,11 @@ Next ==
   \/ \E d \in CRegs : \E i \in IdxFor(cval[d]), b \in BOOLEAN : CSet(d, i, b)
   \/ \E d \in CRegs, x \in CRegs : CCopy(d, x)
 
-Spec == Init /\ [][Next]_<<vars, hist>>
+\* simulation: TLC evaluates invariants on every generated successor, so emission is tied to a last step
+\* that has exactly one successor
+Finish == Len(hist) >= MaxLen /\ ~fin /\ fin' = TRUE /\ UNCHANGED <<vars, hist>>
+NextSim == Next \/ Finish
+Spec == Init /\ [][Next]_<<vars, hist, fin>>
 
 \* ------------------------------------------------------------------ invariants of the model
 TypeOK == /\ \A r \in Regs : val[r].nil \in BOOLEAN /\ (val[r].nil => val[r].bits = <<>>)
@@ -180,6 +185,6 @@ LawsHold ==
     /\ NumTrueBefore(x, Size(x)) = Len(TrueIdx(x))
 
 Emit == PrintT(<<"TRACE", ToJson(Expand(hist))>>)
-EmitAtEnd == Len(hist) < MaxLen \/ Emit
+EmitAtEnd == ~fin \/ Emit
 EmitEdge == PrintT(<<"EDGE", ToJson(Expand(hist'))>>)
 =============================================================================
